@@ -15,6 +15,7 @@ ALLOWED = {
     ("WriteData", "handle"): {"TempIn(Join(Entry,'tmp'))": "cache", "Mmap(TempIn(Join(Entry,'tmp')))": "cache",
                               "Handle(Bucket(Entry))": "cache"},
     ("Fallocate", "handle"): {"TempIn(Join(Entry,'tmp'))": "cache"},
+    ("HandleMut", "handle"): {"TempIn(Join(Entry,'tmp'))": "cache"},     # set_len on the private temp file
     ("Open", "path"): {"Bucket(Entry)": "cache"},
     ("RemoveFile", "path"): {"Content(Entry)": "cache", "Bucket(Entry)": "cache"},
     ("RemoveDirAll", "path"): {"Child(Entry)": "cache"},
